@@ -853,3 +853,62 @@ func VerifC08_NestedUpdate() { verifC07Body(1, false, false, 2, "C08 nested") }
 // on a child-store entity, see VerifC16_ChildStoreSystemEntities) must still be
 // the operation's result after the child and parent parts have been written
 func VerifC07_RejectionRecordedBeforePersist() { VerifC16_ChildStoreSystemEntities() }
+
+// VerifC07_RejectionThroughEitherStoreOfAFamily: an entity (plain or with child
+// data) is updated through the parent or the child store so that its foreign
+// key names a target that exists or not (fk index or fk constraint wiring):
+// the missing target is reported to the caller whichever store the update
+// went through, nothing is written and no event fires; a valid target is
+// accepted.
+func VerifC07_RejectionThroughEitherStoreOfAFamily() {
+	wiring := []int{vFkIndexNullable, vFkConstraintRestrict}[verifrt.Choose("wiring", 2)]
+	env := verifNewEnv(vStoreCfg{nickNullable: true, fk: wiring, fkToDept: true})
+	defer env.close()
+	mgr := verifNewMgrStore(env.emp, false)
+	log := &vEventLog{}
+	verifRegisterListeners(env.emp, mgr, log)
+	env.createDepts(vDeptIds...)
+	child := verifrt.Bool("child")
+	x := vDeptIds[0]
+	err := env.update(func(ctx MutateContext) error {
+		if child {
+			return mgr.Create(ctx, &vMgr{vEmp: vEmp{Id: "a", Name: "Na", Boss: &x}, Lead: true})
+		}
+		return env.emp.Create(ctx, &vEmp{Id: "a", Name: "Na", Boss: &x})
+	})
+	verifrt.Assert(err == nil, "C07 family setup succeeds")
+	log.events = nil
+	var before []vDumpEntry
+	env.view(func(tx *bbolt.Tx) { before = verifDump(tx) })
+	viaChild := verifrt.Bool("viachild")
+	if viaChild && !child {
+		verifrt.Outside("update through the child store of an entity without child data (not constrained)")
+	}
+	missing := verifrt.Bool("target.missing")
+	target := vDeptIds[1]
+	if missing {
+		target = "nosuchdept"
+	}
+	patch := verifrt.Bool("patch")
+	var checker FieldChecker
+	if patch {
+		checker = MapFieldChecker{vFBoss: struct{}{}}
+	}
+	err = env.update(func(ctx MutateContext) error {
+		if viaChild {
+			return mgr.Update(ctx, &vMgr{vEmp: vEmp{Id: "a", Name: "Na", Boss: &target}, Lead: true}, checker)
+		}
+		return env.emp.Update(ctx, &vEmp{Id: "a", Name: "Na", Boss: &target}, checker)
+	})
+	verifrt.Settle()
+	verifrt.Assert((err != nil) == missing, "C07 an update naming a missing fk target is rejected through either store of the family (and only then)")
+	env.view(func(tx *bbolt.Tx) {
+		if missing {
+			verifrt.Assert(verifDumpEqual(before, verifDump(tx)), "C07 a rejected update through either store changes nothing")
+			verifrt.Assert(len(log.events) == 0, "C07 a rejected update fires no events")
+			return
+		}
+		e, found, ferr := env.emp.FindById(tx, "a")
+		verifrt.Assert(ferr == nil && found && e.Boss != nil && *e.Boss == target, "C07 an accepted update is stored")
+	})
+}
